@@ -480,6 +480,25 @@ func arraySorts(s string) (k, v string, ok bool) {
 
 func (env *SpecEnv) sel(x ESel) SpecVal {
 	g := env.g
+	// pkg.Name: a package-level variable or constant of an imported package
+	if id, ok := x.X.(EIdent); ok && env.pkg != nil {
+		if _, isVar := env.vars[id.Name]; !isVar {
+			for _, imp := range env.pkg.Imports() {
+				if imp.Name() != id.Name {
+					continue
+				}
+				if o := imp.Scope().Lookup(x.Field); o != nil {
+					switch ov := o.(type) {
+					case *types.Var:
+						heap := g.so.heap("G!"+smtSym(imp.Name()+"."+x.Field), g.so.sortOf(ov.Type()))
+						return SpecVal{env.heapT(env.cur, heap), g.so.sortOf(ov.Type()), ov.Type()}
+					case *types.Const:
+						return g.constVal(ssa.NewConst(ov.Val(), ov.Type()))
+					}
+				}
+			}
+		}
+	}
 	v := env.tr(x.X)
 	// pseudo-fields
 	if v.Sort == "Iface" {
@@ -756,12 +775,14 @@ func (env *SpecEnv) call(x ECall) SpecVal {
 			return SpecVal{env.heapT(env.cur, key), g.so.heaps[key], nil}
 		}
 		env.fail("no range #%d", k)
-	case "sends", "closed", "chancap":
+	case "sends", "closed", "chancap", "recvs":
 		ch := env.tr(x.Args[0])
 		g.chanHeaps()
 		switch x.Fn {
 		case "sends":
 			return SpecVal{fmt.Sprintf("(select %s %s)", env.heapT(env.cur, chanSendsHeap), ch.T), "Int", nil}
+		case "recvs":
+			return SpecVal{fmt.Sprintf("(select %s %s)", env.heapT(env.cur, chanRecvsHeap), ch.T), "Int", nil}
 		case "closed":
 			return SpecVal{fmt.Sprintf("(select %s %s)", env.heapT(env.cur, chanClosedHeap), ch.T), "Bool", nil}
 		default:
